@@ -111,6 +111,15 @@ func (c *FnCtx) calleeObj(common *ssa.CallCommon) *types.Func {
 }
 
 func (c *FnCtx) calleeSpec(common *ssa.CallCommon) *FuncSpec {
+	s := c.calleeSpec0(common)
+	if s != nil && len(s.Props) == 1 && s.Props[0] == "SWEEP" {
+		// safety-only contracts synthesized by -sweep say nothing to callers
+		return nil
+	}
+	return s
+}
+
+func (c *FnCtx) calleeSpec0(common *ssa.CallCommon) *FuncSpec {
 	if obj := c.calleeObj(common); obj != nil {
 		if s := c.g.lookupSpecForObj(obj); s != nil {
 			return s
